@@ -537,6 +537,39 @@ type IfEmb :struct {
 	pre: string
 }
 
+// named result changed by a deferred closure; two defers run in reverse order
+func namedRes(s: string, n: int) => (r: string, l: []int) {
+	defer func() {
+		r = r + "d"
+		l = append(l, len(r))
+	}()
+	defer func() {
+		if n%2 == 0 {
+			r = s + r
+		}
+	}()
+	r = itoa(n)
+	l = []int{n}
+	return r + "x", l
+}
+
+func catAny(xs: ...interface{}) => string {
+	r := ""
+	for _, x := range xs {
+		switch v := x.(type) {
+		case string:
+			r += v
+		case int:
+			r += itoa(v)
+		case []int:
+			r += itoa(len(v))
+		case *Base:
+			r += v.note
+		}
+	}
+	return r
+}
+
 type Multi interface {
 	Split(n: int) => (string, []int, *Node)
 }
@@ -1067,6 +1100,13 @@ func (g *gen) formOps4() {
 	g.add("labelled continue and break with references in scope", fmt.Sprintf("r := \"\"\nn := 0\nouter:\nfor i := 0; i < 4; i++ {\nrow := %s + itoa(i)\nfor j := 0; j < 4; j++ {\ncell := row + itoa(j)\nif (i+j+b)%%5 == 0 {\ncontinue outer\n}\nif (i*j+c)%%7 == 6 {\nbreak outer\n}\nif len(r) < 100 {\nr += cell[len(cell)-2:]\n}\nn++\n}\n}\n%s = r\nreturn hStr(r) + i64(n)", str("b"), str("a")))
 	g.add("comparisons of temporaries", fmt.Sprintf("x, y := %s, %s\nn := 0\nif x+\"a\" < y+\"b\" {\nn += 1\n}\nif x+y == y+x {\nn += 2\n}\nia: interface{} = x + \"q\"\nib: interface{} = y + \"q\"\nif ia == ib {\nn += 4\n}\nif ia != nil && itoa(b) >= itoa(c) {\nn += 8\n}\nreturn i64(n)", str("b"), str("c")))
 	g.add("append to a map element", fmt.Sprintf("m := make(map[string][]string)\nfor i := 0; i < 2+c%%3; i++ {\nk := itoa((b + i) %% 2)\nm[k] = append(m[k], %s+k)\n}\nr := \"\"\nfor _, v := range m[\"0\"] {\nr += v\n}\nr += itoa(len(m[\"1\"]))\n"+clip("r")+"%s = r\nreturn hStr(r)", str("b"), str("a")))
+	g.add("string to runes and back", fmt.Sprintf("rs := []rune(%s + \"世a\")\nfor i := range rs {\nif i%%2 == c%%2 {\nrs[i] = rune('b' + (b+i)%%20)\n}\n}\nu := string(rs[1:]) + string(rs[0]) + string(rune(0x4e16+b%%8))\n"+clip("u")+"%s = u\nreturn hStr(u) + i64(len(rs))", str("b"), str("a")))
+	g.add("local array of strings copied by value", fmt.Sprintf("arr: [3]string\narr[b%%3] = %s\narr[c%%3] = %s + \"k\"\nt := arr\nt[0] = t[1] + t[2]\nr := arr[0] + \"|\" + t[0]\n"+clip("r")+"%s = r\nreturn hStr(r)", str("b"), str("c"), str("a")))
+	g.add("slice of slices of strings, inner append", fmt.Sprintf("rows := [][]string{}\nfor i := 0; i < 1+c%%3; i++ {\nrows = append(rows, []string{%s})\nrows[i] = append(rows[i], itoa(i+b))\nrows[0] = append(rows[0], rows[i][0])\n}\nr := \"\"\nfor _, row := range rows {\nfor _, x := range row {\nif len(r) < 120 {\nr += x\n}\n}\n}\n%s = r\nreturn hStr(r) + i64(len(rows[0]))", str("b"), str("a")))
+	g.add("tuple assignment of strings", fmt.Sprintf("x, y := %s, %s\nfor i := 0; i < 1+c%%3; i++ {\nx, y = y, x+itoa(i)\n}\n"+clip("x")+clip("y")+"%s, %s = y, x\nreturn hStr(x) + hStr(y)", str("b"), str("c"), str("a"), str("b")))
+	g.add("named results changed by deferred closures", fmt.Sprintf("r, l := namedRes(%s, b)\nr2, _ := namedRes(r, c)\n"+clip("r2")+"%s = r2\n%s = l\nreturn hStr(r2) + hSI(l)", str("b"), str("a"), si("a")))
+	g.add("variadic interface arguments", fmt.Sprintf("bs := &Base{note: %s}\nr := catAny(%s, b, %s, bs, nil, itoa(c))\nr += catAny()\n"+clip("r")+"%s = r\nreturn hStr(r)", str("c"), str("b"), si("c"), str("a")))
+	g.add("methods through slice elements", fmt.Sprintf("ps := []Base{{note: %s}, {note: \"q\"}}\nfor i := range ps {\nps[i].Push(b + i)\nps[i].note += itoa(i)\n}\nqs := append([]Base{}, ps...)\nqs[0].Push(c)\nr := ps[0].Describe() + qs[0].Describe() + qs[1].Describe()\n"+clip("r")+"%s = r\nreturn hStr(r) + hSI(ps[0].hist) + hSI(qs[0].hist)", str("b"), str("a")))
 	if g.has(kNode) {
 		n := func(i string) string { return S(kNode, i) }
 		g.add("pointer to pointer", fmt.Sprintf("p := %s\npp := &p\nq := *pp\nif q != nil {\npp = &q.next\nif *pp != nil {\nq = *pp\n}\n}\nr := &Node{val: b, rank: 0, name: itoa(c)}\nhold := &r\n(*hold).items = append((*hold).items, c)\nreturn hN(q) + hN(*hold)", n("a")))
